@@ -311,8 +311,75 @@ def rule_turn_prune(chk, prog):
         raise AnalysisBroken("no turn-pruning condition found in AStarPathPrivate::search")
 
 
+def rule_inside_strict(chk, prog):
+    """Node::isInsideShape decides whether a connector end point gets pass-through vertices in the orthogonal visibility graph."""
+    from ..microai.interp import default_obj
+    r = chk.rule("INSIDE-STRICT", "Avoid::Node::isInsideShape(dim), interpreted on a scan line with one obstacle node below and one above (symbolic "
+                 "extents): true iff the position lies *strictly* between min and max of one of them -- a point on an obstacle's side is not "
+                 "inside it (otherwise the end point loses its vertex and routes along that side detour)", floor=1)
+    fn = prog.fn("Avoid::Node::isInsideShape")
+    bad = None
+    n_rows = 0
+    for dim in (0, 1):
+        def mknode(tag):
+            return default_obj(prog, "Avoid::Node", {"min": Vec([Poly.var(tag + "min0"), Poly.var(tag + "min1")]), "max": Vec([Poly.var(tag + "max0"), Poly.var(tag + "max1")]),
+                                                   "pos": Poly.var(tag + "pos"), "firstAbove": None, "firstBelow": None})
+        me = mknode("m")
+        lo, hi = mknode("b"), mknode("a")
+        me.f["firstBelow"] = lo
+        me.f["firstAbove"] = hi
+        me.f["pos"] = Poly.var("p")
+
+        def run(o, me=me):
+            it = Interp(prog, o)
+            try:
+                return ("ret", it.call(fn, copy.deepcopy(me), None, None, arg_values=[dim]))
+            except AssertFail as e:
+                return ("assert", str(e))
+        try:
+            rows = enumerate_paths(run, limit=500)
+        except Unsupported as e:
+            raise AnalysisBroken("Node::isInsideShape outside the interpreter subset: %s" % e)
+        n_rows += len(rows)
+        vals = (0, 1, 2)
+        for pv in vals:
+            for bmin in vals:
+                for bmax in vals:
+                    for amin in vals:
+                        for amax in vals:
+                            env = {"p": Fraction(pv), "bmin%d" % dim: Fraction(bmin), "bmax%d" % dim: Fraction(bmax),
+                                   "amin%d" % dim: Fraction(amin), "amax%d" % dim: Fraction(amax)}
+                            hit = None
+                            for val, descr, out in rows:
+                                ok = True
+                                for k_, v_ in val.items():
+                                    pl = Poly({m: Fraction(c[0], c[1]) for m, c in k_[1]})
+                                    if not pl.vars() <= set(env):
+                                        ok = False
+                                        break
+                                    e = pl.eval_exact(env)
+                                    if ((e > 0) - (e < 0)) != v_:
+                                        ok = False
+                                        break
+                                if ok:
+                                    hit = out
+                                    break
+                            if hit is None:
+                                bad = bad or "no path of the decision tree covers %s (reads the wrong dimension?)" % env
+                                continue
+                            want = (bmin < pv < bmax) or (amin < pv < amax)
+                            if hit != ("ret", want):
+                                bad = bad or "dim %d, position %d, below [%d,%d], above [%d,%d]: returns %s, expected %s" % (
+                                    dim, pv, bmin, bmax, amin, amax, hit, want)
+    r.count(n_rows)
+    (r.bad if bad else r.ok)("Avoid::Node::isInsideShape", fn.where(), bad or "%d paths" % n_rows)
+
+
 def run(chk):
     prog = chk.load()
+    from .c04 import rule_astar
+    rule_astar(chk, prog)
+    rule_inside_strict(chk, prog)
     rule_bends(chk, prog)
     rule_dir_tables(chk, prog)
     rule_heuristic(chk, prog)
